@@ -9,7 +9,7 @@ one fault per armed exchange:  Fault(at, kind, arg) with at = 1 (sendto) or 2 (s
 import os
 import socket as _real_socket
 
-from .chip_pn53x import Fault  # noqa: F401  (kinds are checked there; "short_send"/"rfoff" added below)
+from .chip_pn53x import SimHang
 
 
 class UFault(object):
@@ -116,7 +116,6 @@ class FakeSelectModule(object):
         if net.inbox:
             return list(r), [], []
         if timeout is None:
-            from .chip_pn53x import SimHang
             raise SimHang("select() without timeout and nothing will ever arrive")
         net.clock.advance(timeout)
         return [], [], []
